@@ -155,8 +155,8 @@ MUTANTS = [
      "find": "                    let established_in = accepted_at.elapsed();\n",
      "replace": "                    let established_in = accepted_at.elapsed();\n                    self.counters.inc_established(&endpoint);\n",
      "expect": r"^counted/", "why": "a connection denied at the established stage stays counted forever"},
-    {"name": "spawn before asking the behaviour (inbound)", "file": "swarm/src/lib.rs",
-     "find": "Err(cause) => {\n                                let connection_error = ListenError::Denied { cause };",
-     "replace": "Err(cause) if cause.downcast_ref::<std::io::Error>().is_some() => { let _ = cause; return; }\n                            Err(cause) => {\n                                let connection_error = ListenError::Denied { cause };",
-     "expect": r"^denied/", "why": "one deny path reports nothing"},
+    {"name": "pending inbound denial with a silent early return", "file": "swarm/src/lib.rs",
+     "find": "                    Err(cause) => {\n                        let listen_error = ListenError::Denied { cause };\n",
+     "replace": "                    Err(cause) if cause.downcast_ref::<std::io::Error>().is_some() => { return; }\n                    Err(cause) => {\n                        let listen_error = ListenError::Denied { cause };\n",
+     "expect": r"^denied/", "why": "one denial path reports no ListenFailure / IncomingConnectionError"},
 ]
